@@ -242,6 +242,11 @@ def make_weights(sizes, kind, seed=0):
     if kind == 'seeded':
         rnd = random.Random(seed * 104729 + len(idx))
         return [rnd.choice([0.25, 0.5, 1.0, 2.0, 3.0]) for _ in idx]
+    if kind == 'mean1':         # not uniform, but the deviations from 1 cancel: the mean is exactly 1
+        return [[0.5, 1.5, 1.0, 1.0][n % 4] for n in range(len(idx) - len(idx) % 4)] + [1.0] * (len(idx) % 4)
+    if kind == 'arc':           # tensor product of circular-arc weights 1, sqrt(2)/2, 1 (mixed weight derivatives vanish on midlines)
+        r = 0.5 ** 0.5
+        return [(r if i % 2 else 1.0) * (r if j % 2 else 1.0) * (r if k % 2 else 1.0) for i, j, k in idx]
     if kind == 'extreme':       # below 0.1 and above 100
         return [[0.01, 250.0, 1.0, 0.07][n % 4] for n in range(len(idx))]
     if kind == 'equal5':        # all equal but not 1: the shape is polynomial, the object is rational
